@@ -3,6 +3,9 @@
 //! `write_exec_d_program_output` captured from fd 3 of a helper process, PackageDescriptor) and `write_toml_file`;
 //! the written bytes are parsed by an **independent** TOML reader (Python `tomllib`, tools/toml2tree.py, one call per
 //! batch) and that tree is the observation: `<tree>;rt=<1|0|->` (`rt`: libcnb's own reader returns the value written).
+//! Family `launchseq`: `build()` is an operation *inside* the call sequence of the non-consuming builders (`B` on the
+//! LaunchBuilder, `b` on a ProcessBuilder); every built `Launch` — not only the last — is written to its own file and decoded on
+//! its own, the observation is the list of documents joined by ` || `.
 use cnbv::tomlwire::{V, from_wire, to_wire};
 use cnbv::*;
 use libcnb::data::build_plan::{BuildPlanBuilder, Require};
@@ -14,7 +17,7 @@ use libcnb::data::package_descriptor::{PackageDescriptor, PackageDescriptorBuild
 use libcnb::data::store::Store;
 use libcnb::{read_toml_file, write_toml_file};
 use std::io::{BufRead, Write};
-use std::path::Path;
+use std::path::{Path, PathBuf};
 use toml::Value;
 
 // ---------------------------------------------------------------- tokens
@@ -69,8 +72,18 @@ fn pre_content(kind: &str, pre: &str, t: &[u8]) -> Option<Vec<u8>> {
 
 /// writes the document of one case to `path` with the real writer — first on the fresh path, then (unless `pre=fresh`)
 /// once more over a pre-existing file at the same path; returns the own-reader flag (`1`, `0`, `-`)
-fn write_case(f0: &[String], path: &Path) -> String {
+fn write_case(f0: &[String], path_of: &dyn Fn(usize) -> PathBuf) -> Vec<String> {
     let (pre, f): (&str, &[String]) = match f0.last().and_then(|l| l.strip_prefix("pre=")) { Some(p) => (p, &f0[..f0.len() - 1]), None => ("fresh", f0) };
+    if f[0] == "launchseq" {
+        // every `Launch` the builder hands out, in the order of the `build()` calls; each one goes through the real writer to its own path
+        return launch_session(&f[1]).into_iter().enumerate().map(|(k, launch)| {
+            let l2 = launch.clone();
+            write_doc("launch", pre, &path_of(k), &move |p| write_toml_file(&launch, p).expect("write"),
+                &move |p| match read_toml_file::<Launch>(p) { Ok(back) => u8::from(launch_v(&back).render() == launch_v(&l2).render()).to_string(), Err(_) => "0".into() })
+        }).collect();
+    }
+    let path = path_of(0);
+    let path: &Path = &path;
     // (the write, the own-reader check)
     let (write, rt): (Box<dyn Fn(&Path)>, Box<dyn Fn(&Path) -> String>) = match f[0].as_str() {
         "launch" => {
@@ -112,6 +125,8 @@ fn write_case(f0: &[String], path: &Path) -> String {
                     b = match p[0] {
                         "p" => b.provides(ux(p[1])),
                         "r" => { let mut r = Require::new(ux(p[1])); r.metadata(table_of(p[2])).expect("metadata"); b.requires(r) }
+                        // Require::new + any number of metadata(..) calls; none: requires("name") through From<S>
+                        "q" => if p.len() == 2 { b.requires(ux(p[1])) } else { let mut r = Require::new(ux(p[1])); for t in &p[2..] { r.metadata(table_of(t)).expect("metadata"); } b.requires(r) },
                         "o" => b.or(),
                         _ => panic!("plan op"),
                     };
@@ -153,14 +168,83 @@ fn write_case(f0: &[String], path: &Path) -> String {
         }
         _ => panic!("kind"),
     };
+    vec![write_doc(&f[0], pre, path, &*write, &*rt)]
+}
+
+/// one document: the real write on the fresh path, then (unless `pre=fresh`) once more over a pre-existing file at the same path
+fn write_doc(kind: &str, pre: &str, path: &Path, write: &dyn Fn(&Path), rt: &dyn Fn(&Path) -> String) -> String {
     write(path);
     if pre != "fresh" {
         let t = std::fs::read(path).expect("read back");
-        let before = pre_content(&f[0], pre, &t).expect("pre");
+        let before = pre_content(kind, pre, &t).expect("pre");
         std::fs::write(path, before).expect("prepare");
         write(path);
     }
     rt(path)
+}
+
+fn proc_call(pb: &mut ProcessBuilder, o: &str) {
+    let (k, v) = o.split_once(':').expect("proc op");
+    match k {
+        "a" => { pb.arg(ux(v)); }
+        "A" => { pb.args(uxs(v)); }
+        "d" => { pb.default(v == "1"); }
+        "w" => { pb.working_directory(if v == "-" { WorkingDirectory::App } else { WorkingDirectory::Directory(ux(v).into()) }); }
+        _ => panic!("proc op"),
+    }
+}
+
+/// One LaunchBuilder instance driven through a call sequence in which `build()` is an operation like the others
+/// (`B`: `LaunchBuilder::build`, `b` inside `P~…`: `ProcessBuilder::build`, its result handed to `process(..)`); one more `build()`
+/// of each builder at the end. Returns every `Launch` built, in order. The builders live in `let mut` bindings and `build` is
+/// called by method syntax, so this compiles whether `build` takes `&self` or `&mut self`.
+#[allow(unused_mut)]
+fn launch_session(ops: &str) -> Vec<Launch> {
+    let mut built: Vec<Launch> = vec![];
+    let mut b = LaunchBuilder::new();
+    for op in split_list(ops, "|") {
+        if op == "B" { let v = b.build(); built.push(v); continue; }
+        if let Some(rest) = op.strip_prefix("Q~") {
+            // processes([..]): each element built once by its own ProcessBuilder
+            let ps: Vec<Process> = split_list(rest, ";").iter().map(|t| {
+                let p: Vec<&str> = t.split('~').collect();
+                assert!(p.len() == 3, "process triple");
+                let mut pb = ProcessBuilder::new(ux(p[0]).parse().expect("process type"), uxs(p[1]));
+                for o in split_list(p[2], "/") { proc_call(&mut pb, o); }
+                pb.build()
+            }).collect();
+            b.processes(ps);
+            continue;
+        }
+        if let Some(rest) = op.strip_prefix("M~") {
+            let ls: Vec<Label> = split_list(rest, ";").iter().map(|kv| { let (k, v) = kv.split_once('~').expect("label pair"); Label { key: ux(k), value: ux(v) } }).collect();
+            b.labels(ls);
+            continue;
+        }
+        if let Some(rest) = op.strip_prefix("Z~") {
+            let ss: Vec<Slice> = split_list(rest, ";").iter().map(|ps| Slice { path_globs: uxs(ps) }).collect();
+            b.slices(ss);
+            continue;
+        }
+        let p: Vec<&str> = op.split('~').collect();
+        match p[0] {
+            "P" => {
+                assert!(p.len() == 4, "process op");
+                let mut pb = ProcessBuilder::new(ux(p[1]).parse().expect("process type"), uxs(p[2]));
+                for o in split_list(p[3], "/") {
+                    if o == "b" { let v = pb.build(); b.process(v); } else { proc_call(&mut pb, o); }
+                }
+                let v = pb.build();
+                b.process(v);
+            }
+            "L" => { assert!(p.len() == 3, "label op"); b.label(Label { key: ux(p[1]), value: ux(p[2]) }); }
+            "S" => { assert!(p.len() == 2, "slice op"); b.slice(Slice { path_globs: uxs(p[1]) }); }
+            _ => panic!("launch op"),
+        }
+    }
+    let v = b.build();
+    built.push(v);
+    built
 }
 
 fn execd_helper(pairs: &str) {
@@ -224,7 +308,7 @@ fn plan_case(ops: &[String], kind: &str) -> Case {
     let ors = ops.iter().filter(|o| *o == "o").count();
     let groups: Vec<&[String]> = ops.split(|o| o == "o").collect();
     let empty = groups.iter().filter(|g| g.is_empty()).count();
-    let md = ops.iter().any(|o| o.starts_with("r~") && !o.ends_with("~T0"));
+    let md = ops.iter().any(|o| (o.starts_with("r~") || (o.starts_with("q~") && o.matches('~').count() >= 2)) && !o.ends_with("~T0"));
     case(vec!["plan".into(), join("|", ops)], kind, vec![("ors", ors.min(9).to_string()), ("empty_groups", empty.min(9).to_string()), ("metadata", u8::from(md).to_string())], ors >= 1 || md)
 }
 
@@ -232,9 +316,15 @@ const PRES: &[&str] = &["garbage", "longer", "same", "shorter", "empty"];
 
 /// every document is written on a fresh path and also over each kind of pre-existing file (exec.d output goes to fd 3, not to a path)
 fn generate(tier: &str, seed: u64, emit0: &mut dyn FnMut(Case)) {
+    let mut rot = 0usize;
     let mut emit = |c: Case| {
         let is_file = c.fields[0] != "execd";
-        let variants: Vec<&str> = if is_file { std::iter::once("fresh").chain(PRES.iter().copied()).collect() } else { vec!["fresh"] };
+        // the bounded-exhaustive build()-position sequences are written on fresh paths only (the sampled ones over every kind of old file)
+        let fresh_only = c.tags.iter().any(|(k, v)| k == "kind" && v.starts_with("launchseq-exh"));
+        // the sampled ones: fresh + one kind of old file each, in rotation (every document of the sequence is written over such a file)
+        let rotating = c.tags.iter().any(|(k, v)| k == "kind" && v == "launchseq");
+        if rotating { rot += 1; }
+        let variants: Vec<&str> = if rotating { vec!["fresh", PRES[rot % PRES.len()]] } else if is_file && !fresh_only { std::iter::once("fresh").chain(PRES.iter().copied()).collect() } else { vec!["fresh"] };
         for pre in variants {
             let mut fields = c.fields.clone();
             fields.push(format!("pre={pre}"));
@@ -342,17 +432,115 @@ fn generate(tier: &str, seed: u64, emit0: &mut dyn FnMut(Case)) {
             }
         }
     }
+    // ---- Require::metadata called 0, 1, 2, 3 times (each call replaces the table), in every position of a short plan
+    let t1 = to_wire(&Value::Table([("k".to_string(), Value::Integer(1))].into_iter().collect()));
+    let t2 = to_wire(&Value::Table([("other".to_string(), Value::Array(vec![Value::String("v".into())]))].into_iter().collect()));
+    let qs = [format!("q~{}", xs("n")), format!("q~{}~{t1}", xs("n")), format!("q~{}~{t1}~{t2}", xs("n")), format!("q~{}~{t1}~T0", xs("n")), format!("q~{}~T0~{t2}~{t1}", xs("n"))];
+    for q in &qs {
+        for ctx in [vec![q.clone()], vec![alphabet[0].clone(), q.clone()], vec![q.clone(), "o".to_string(), q.clone()], vec!["o".to_string(), q.clone(), alphabet[1].clone()]] { emit(plan_case(&ctx, "plan-require-calls")); }
+    }
+    for i in 0..(if thorough { 3_000 } else { 200 }) {
+        let mut r = Rng::for_case(seed ^ 0x0071_3e7a, i);
+        let mut ops = vec![];
+        for _ in 0..r.below(6) {
+            ops.push(match r.below(5) {
+                0 => format!("p~{}", xs(&rstr(&mut r))),
+                1 => "o".to_string(),
+                _ => { let ts: Vec<String> = (0..r.below(4)).map(|_| to_wire(&Value::Table(rtable(&mut r, 0)))).collect(); if ts.is_empty() { format!("q~{}", xs(&rstr(&mut r))) } else { format!("q~{}~{}", xs(&rstr(&mut r)), ts.join("~")) } }
+            });
+        }
+        emit(plan_case(&ops, "plan-require-calls"));
+    }
+    // ---- build() as an operation inside the call sequence (non-consuming builders: LaunchBuilder `B`, ProcessBuilder `b`).
+    // BuildPlanBuilder::build(self) consumes the builder (and it is not Clone), so no call can follow its build(): nothing to enumerate there.
+    let x = |s: &str| xs(s);
+    let alphabet: Vec<String> = vec![
+        format!("P~{}~{}~d:1", x("web"), x("run")),
+        format!("P~{}~{}~a:{}/b/a:{}/w:{}", x("worker"), x("job"), x("1"), x("2"), x("dir")),
+        format!("L~{}~{}", x("k"), x("v")),
+        format!("S~{}", x("p/**")),
+        "B".to_string(),
+        format!("Q~{}~{}~-;{}~-~A:{},{}", x("w.1"), x("c"), x("release"), x("a"), x("b")),
+    ];
+    let exh = |alphabet: &[String], maxlen: usize, kind: &str, emit: &mut dyn FnMut(Case)| {
+        for len in 0..=maxlen {
+            let mut idx = vec![0usize; len];
+            loop {
+                let ops: Vec<String> = idx.iter().map(|&i| alphabet[i].clone()).collect();
+                emit(seq_case(&ops, kind));
+                let mut i = 0;
+                while i < len { idx[i] += 1; if idx[i] < alphabet.len() { break; } idx[i] = 0; i += 1; }
+                if i == len { break; }
+            }
+        }
+    };
+    exh(&alphabet, if thorough { 5 } else { 4 }, "launchseq-exh", emit);
+    // the plural calls labels / slices / processes([]) around build()
+    let plural: Vec<String> = vec![format!("M~{}~{};{}~{}", x("k1"), x("v1"), x("k2"), x("")), format!("Z~{};-;{},{}", x("a"), x("b"), x("c")), "B".to_string(), "Q~-".to_string()];
+    exh(&plural, if thorough { 4 } else { 3 }, "launchseq-exh-plural", emit);
+    let n2 = if thorough { 8_000 } else { 600 };
+    for i in 0..n2 {
+        let mut r = Rng::for_case(seed ^ 0x5e9_b01d, i);
+        let pops = |r: &mut Rng, builds: bool| -> Vec<String> {
+            (0..r.below(6)).map(|_| match r.below(if builds { 6 } else { 5 }) {
+                0 => format!("a:{}", xs(&rstr(r))),
+                1 => format!("A:{}", lst(&rstrs(r, 3))),
+                2 => format!("d:{}", r.below(2)),
+                3 => "w:-".to_string(),
+                4 => format!("w:{}", xs(&rstr(r))),
+                _ => "b".to_string(),
+            }).collect()
+        };
+        let mut ops = vec![];
+        for _ in 0..r.below(11) {
+            ops.push(match r.below(100) {
+                0..=29 => format!("P~{}~{}~{}", xs(*r.pick(PTYPES)), lst(&rstrs(&mut r, 3)), join("/", &pops(&mut r, true))),
+                30..=41 => format!("L~{}~{}", xs(&rstr(&mut r)), xs(&rstr(&mut r))),
+                42..=53 => format!("S~{}", lst(&rstrs(&mut r, 3))),
+                54..=79 => "B".to_string(),
+                80..=86 => { let ps: Vec<String> = (0..r.below(4)).map(|_| format!("{}~{}~{}", xs(*r.pick(PTYPES)), lst(&rstrs(&mut r, 2)), join("/", &pops(&mut r, false)))).collect(); format!("Q~{}", join(";", &ps)) }
+                87..=92 => { let kv: Vec<String> = (0..r.below(4)).map(|_| format!("{}~{}", xs(&rstr(&mut r)), xs(&rstr(&mut r)))).collect(); format!("M~{}", join(";", &kv)) }
+                _ => {
+                    let mut ss: Vec<Vec<String>> = (0..r.below(4)).map(|_| rstrs(&mut r, 2)).collect();
+                    // a single slice without paths would read as "no slices" in the token syntax: give it a path
+                    if ss.len() == 1 && ss[0].is_empty() { ss[0].push(rstr(&mut r)); }
+                    format!("Z~{}", join(";", &ss.iter().map(|s| lst(s)).collect::<Vec<_>>()))
+                }
+            });
+        }
+        emit(seq_case(&ops, "launchseq"));
+    }
+}
+
+/// a `launchseq` case; non-trivial = at least one configuring call and at least one build() besides the final ones (`B`, or `b` in a ProcessBuilder)
+fn seq_case(ops: &[String], kind: &str) -> Case {
+    let nb = ops.iter().filter(|o| *o == "B").count();
+    let npb: usize = ops.iter().filter(|o| o.starts_with("P~")).map(|o| o.rsplit('~').next().unwrap().split('/').filter(|c| *c == "b").count()).sum();
+    let adds = ops.iter().filter(|o| *o != "B").count();
+    let plural = ops.iter().any(|o| o.starts_with("Q~") || o.starts_with("M~") || o.starts_with("Z~"));
+    // an add after a build(): the later document must still hold what came before that build()
+    let add_after_build = ops.iter().position(|o| o == "B").is_some_and(|i| ops[i..].iter().any(|o| o != "B"));
+    let twice = ops.windows(2).any(|w| w[0] == "B" && w[1] == "B") || ops.last().is_some_and(|o| o == "B");
+    case(vec!["launchseq".into(), join("|", ops)], kind,
+        vec![("ops", ops.len().to_string()), ("builds", nb.min(5).to_string()), ("process_builder_builds", npb.min(3).to_string()), ("plural_calls", u8::from(plural).to_string()),
+             ("build_first", u8::from(ops.first().is_some_and(|o| o == "B")).to_string()), ("add_after_build", u8::from(add_after_build).to_string()), ("build_twice_in_a_row", u8::from(twice).to_string())],
+        adds >= 1 && nb + npb >= 1)
 }
 
 // ---------------------------------------------------------------- batch loop (one tomllib process per batch)
 fn run_batch(cases: &[Case]) -> Vec<String> {
     let dir = tempfile::tempdir().expect("tempdir");
     std::panic::set_hook(Box::new(|_| {}));
-    let mut pre: Vec<Result<String, String>> = vec![];
+    let mut pre: Vec<Result<Vec<String>, String>> = vec![];
+    // document k of case i is written to <i>-<k>.toml
+    let name = |i: usize, k: usize| format!("{i:08}-{k:03}.toml");
     for (i, c) in cases.iter().enumerate() {
-        let path = dir.path().join(format!("{i:08}.toml"));
         let f = c.fields.clone();
-        pre.push(match std::panic::catch_unwind(std::panic::AssertUnwindSafe(|| write_case(&f, &path))) { Ok(rt) => Ok(rt), Err(_) => { let _ = std::fs::remove_file(&path); Err("PANIC".to_string()) } });
+        let path_of = |k: usize| dir.path().join(name(i, k));
+        pre.push(match std::panic::catch_unwind(std::panic::AssertUnwindSafe(|| write_case(&f, &path_of))) {
+            Ok(rt) => Ok(rt),
+            Err(_) => { let mut k = 0; while std::fs::remove_file(path_of(k)).is_ok() { k += 1; } Err("PANIC".to_string()) }
+        });
     }
     let tool = std::env::var("VERIF_TOML2TREE").unwrap_or_else(|_| "/verif/tools/toml2tree.py".into());
     let out = std::process::Command::new("python3").arg(tool).arg(dir.path()).output().expect("python3");
@@ -361,7 +549,9 @@ fn run_batch(cases: &[Case]) -> Vec<String> {
     for line in String::from_utf8(out.stdout).expect("utf8").lines() { if let Some((n, t)) = line.split_once('\t') { trees.insert(n.to_string(), t.to_string()); } }
     pre.into_iter().enumerate().map(|(i, p)| match p {
         Err(e) => e,
-        Ok(rt) => match trees.get(&format!("{i:08}.toml")) { Some(t) if t.starts_with("invalid-") => t.clone(), Some(t) => format!("{t};rt={rt}"), None => "no-file-written".to_string() },
+        Ok(rts) => rts.iter().enumerate().map(|(k, rt)| match trees.get(&name(i, k)) {
+            Some(t) if t.starts_with("invalid-") => t.clone(), Some(t) => format!("{t};rt={rt}"), None => "no-file-written".to_string(),
+        }).collect::<Vec<_>>().join(" || "),
     }).collect()
 }
 
